@@ -493,6 +493,182 @@ theorem calc_glue_compliance_names {β : Type} (s : Stores β) (hasKey : String 
   unfold lookup
   rw [resolve_s_t_gen s.hasKey name d h]
 
+/-! #### `getattr(volume_base, name)`: normal lookup first — exactly which names reach `__getattr__`
+
+The theorems above describe `CijVolumeBaseInterface.__getattr__`.  Python calls it only when normal lookup fails.  The translator
+extracts, per class, every name normal lookup can find: the names bound in the class body (`classNames`), the attributes assigned on
+`self` (`initAttrs`: unconditionally in `__init__`; `laterAttrs`: anywhere else), the cache attributes `_<name>` of the LazyProperties
+(`lazyCacheAttrs`), and that nothing makes lookup dynamic (`StaticLookup`: no base class, no `__getattribute__` / `__setattr__` /
+`__slots__`, no `setattr` / `__dict__` / `vars`, no store on another object).  What `object` and the type machinery add is a parameter
+`builtin`, constrained only by the spelling `__…` (the harness checks that spelling on the real objects).  `getattrOf` (CijModel/CalcGlue.lean)
+is `getattr`: `.attribute` when normal lookup finds the name, `.fallback (__getattr__ name)` when it cannot, `.stateDependent` for an attribute
+that exists only after some method ran. -/
+
+theorem calc_glue_static_lookup : StaticLookup := by decide
+
+/-- **(1) no name of the language of `REGEX_CIJ` is in the way**: a name the extracted pattern accepts (any spelling: `cIJ`, `s_ijkl`, suffix,
+trailing newline) is different from every name bound in the body of `CijVolumeBaseInterface` / `CijPressureBaseInterface`, every attribute
+assigned on `self` in their methods and every LazyProperty cache attribute, and is not spelled `__…`: normal lookup fails on BOTH
+interfaces -/
+theorem calc_glue_accepted_names_reach_getattr (name : String) (q : Parsed)
+    (h : matchName regexParts getattrMatchFn name.toList = some q) :
+    (∀ d ∈ volumeBaseShape.all ++ pressureBaseShape.all, d ≠ name) ∧
+    volumeBaseShape.defined name = false ∧ pressureBaseShape.defined name = false ∧ dunderLike name = false := by
+  refine ⟨fun d hd e => ?_, accepted_not_defined _ volumeBase_names_rejected name q h,
+    accepted_not_defined _ pressureBase_names_rejected name q h, accepted_not_dunder name q h⟩
+  subst e
+  rcases List.mem_append.1 hd with hd | hd
+  · rw [volumeBase_names_rejected d hd] at h; cases h
+  · rw [pressureBase_names_rejected d hd] at h; cases h
+
+/-- **(2) the explicit quantities never go through `__getattr__`**: every node of the property graph of `CijVolumeBaseInterface` (the six
+averages, `mass`, the two velocities, `v_array`, `t_array`, `pressures`, the two dictionaries) is bound in the class body — found by normal
+lookup on every instance — and is outside the language of the pattern; every attribute any method of the class reads through `self` is
+either such an always-defined name or a name of the language (so no read of the class can end in `raise AttributeError(name)` for a name
+outside both); the same for `CijPressureBaseInterface`, whose methods read no name of the language at all -/
+theorem calc_glue_explicit_quantities_defined :
+    (∀ e ∈ volumeBaseDeps, volumeBaseShape.always e.1 = true ∧ matchName regexParts getattrMatchFn e.1.toList = none ∧
+        ∀ r ∈ e.2.2, volumeBaseShape.always r = true) ∧
+    (∀ n ∈ ["bulk_modulus_voigt", "bulk_modulus_reuss", "bulk_modulus_voigt_reuss_hill", "shear_modulus_voigt", "shear_modulus_reuss",
+        "shear_modulus_voigt_reuss_hill", "mass", "primary_velocities", "secondary_velocities"],
+        volumeBaseShape.always n = true ∧ pressureBaseShape.always n = true ∧ (volumeBaseDeps.map (·.1)).contains n = true) ∧
+    (∀ e ∈ selfReads, e.1 = "CijVolumeBaseInterface" → ∀ r ∈ e.2.2,
+        volumeBaseShape.always r = true ∨ (matchName regexParts getattrMatchFn r.toList).isSome = true) ∧
+    (∀ e ∈ selfReads, e.1 = "CijPressureBaseInterface" → ∀ r ∈ e.2.2, pressureBaseShape.always r = true) := by
+  decide +kernel
+
+/-- **(3) `getattr(volume_base, name)` for EVERY name**: the defined attribute when the class binds the name, `__init__` assigns it or the
+interpreter provides it — and then `__getattr__` would have raised AttributeError anyway (the name is outside the language); the attribute or
+AttributeError for a name that only a later method / a LazyProperty cache would set; otherwise the translated dispatch of
+`__getattr__` (`calc_glue_is_source_lookup_dispatch`) -/
+theorem calc_glue_getattr_volume_base (builtin : String → Bool) (hb : ∀ n, builtin n = true → dunderLike n = true)
+    (hasKey : String → Modulus → Bool) (name : String) :
+    getattrVolumeBase volumeBaseShape builtin regexParts getattrMatchFn getattrBranches hasKey name =
+      (if volumeBaseShape.always name || builtin name then .attribute name
+       else if volumeBaseShape.sometimes name then .stateDependent name .attributeError
+       else .fallback (resolve regexParts getattrMatchFn getattrBranches hasKey name)) ∧
+    (volumeBaseShape.defined name = true ∨ builtin name = true →
+      matchName regexParts getattrMatchFn name.toList = none ∧
+      resolve regexParts getattrMatchFn getattrBranches hasKey name = .attributeError) := by
+  have hrej : volumeBaseShape.defined name = true ∨ builtin name = true →
+      matchName regexParts getattrMatchFn name.toList = none := by
+    intro hd
+    cases hm : matchName regexParts getattrMatchFn name.toList with
+    | none => rfl
+    | some q =>
+      obtain ⟨_, h1, _, h2⟩ := calc_glue_accepted_names_reach_getattr name q hm
+      rcases hd with hd | hd
+      · rw [h1] at hd; cases hd
+      · rw [hb name hd] at h2; cases h2
+  have hres : matchName regexParts getattrMatchFn name.toList = none →
+      resolve regexParts getattrMatchFn getattrBranches hasKey name = .attributeError := by
+    intro hm; unfold resolve; rw [hm]
+  refine ⟨?_, fun hd => ⟨hrej hd, hres (hrej hd)⟩⟩
+  unfold getattrVolumeBase getattrOf
+  by_cases h1 : (volumeBaseShape.always name || builtin name) = true
+  · rw [if_pos h1, if_pos h1]
+  · rw [if_neg h1, if_neg h1]
+    by_cases h2 : volumeBaseShape.sometimes name = true
+    · rw [if_pos h2, if_pos h2, hres (hrej (Or.inl (by simp [AttrShape.defined, h2])))]
+    · rw [if_neg h2, if_neg h2]
+
+/-- … in particular an accepted name: `getattr(volume_base, name)` IS `__getattr__(name)`, no precondition -/
+theorem calc_glue_getattr_accepted (builtin : String → Bool) (hb : ∀ n, builtin n = true → dunderLike n = true)
+    (hasKey : String → Modulus → Bool) (name : String) (q : Parsed)
+    (h : matchName regexParts getattrMatchFn name.toList = some q) :
+    getattrVolumeBase volumeBaseShape builtin regexParts getattrMatchFn getattrBranches hasKey name =
+      .fallback (resolve regexParts getattrMatchFn getattrBranches hasKey name) := by
+  obtain ⟨_, h1, _, h2⟩ := calc_glue_accepted_names_reach_getattr name q h
+  exact getattrOf_undefined _ _ _ _ h1 (by
+    cases hbn : builtin name with
+    | false => rfl
+    | true => rw [hb name hbn] at h2; cases h2)
+
+/-- `calc_glue_is_source_averages_read` about `getattr`: the reads `self.cIJ` / `self.sIJ` of the averaging properties are
+`getattr(self, "cIJ")`, which is the dispatch — adiabatic stiffness, reported compliances — for all 36 index pairs and all dictionaries -/
+theorem calc_glue_getattr_averages_read {β : Type} (builtin : String → Bool) (hb : ∀ n, builtin n = true → dunderLike n = true)
+    (s : Stores β) (hkeys : s.keys = s.adiabatic.map (·.1)) (p : Int × Int) (hp : p ∈ allPairs) :
+    getattrVolumeBaseValue volumeBaseShape builtin regexParts getattrMatchFn getattrBranches s ("c" ++ toString p.1 ++ toString p.2)
+        = .fallback ((attrKey p.1 p.2).bind (find s.adiabatic)) ∧
+    getattrVolumeBaseValue volumeBaseShape builtin regexParts getattrMatchFn getattrBranches s ("s" ++ toString p.1 ++ toString p.2)
+        = .fallback ((attrKey p.1 p.2).bind (find s.compliances)) := by
+  obtain ⟨h1, h2, _⟩ := names_IJ p hp
+  obtain ⟨r1, r2⟩ := calc_glue_is_source_averages_read s hkeys p hp
+  have nb : ∀ (name : String) (q : Parsed), matchName regexParts getattrMatchFn name.toList = some q → builtin name = false := by
+    intro name q h
+    cases hbn : builtin name with
+    | false => rfl
+    | true => have := accepted_not_dunder name q h; rw [hb name hbn] at this; cases this
+  unfold getattrVolumeBaseValue
+  rw [getattrOf_undefined _ _ _ _ (accepted_not_defined _ volumeBase_names_rejected _ _ h1) (nb _ _ h1),
+    getattrOf_undefined _ _ _ _ (accepted_not_defined _ volumeBase_names_rejected _ _ h2) (nb _ _ h2), r1, r2]
+  exact ⟨rfl, rfl⟩
+
+/-- `calc_glue_compliance_names` about `getattr`: for every accepted name with prefix `s`, `getattr(volume_base, name)` raises
+AttributeError for suffix `t` and returns the entry of `_compliances` under the canonical key otherwise -/
+theorem calc_glue_getattr_compliance_names {β : Type} (builtin : String → Bool) (hb : ∀ n, builtin n = true → dunderLike n = true)
+    (s : Stores β) (hasKey : String → Modulus → Bool) (name : String) (q : Parsed)
+    (h : matchName regexParts getattrMatchFn name.toList = some q) (hs : q.pre = 's') :
+    (q.suf = some 't' →
+      getattrVolumeBase volumeBaseShape builtin regexParts getattrMatchFn getattrBranches hasKey name = .fallback .attributeError ∧
+      getattrVolumeBaseValue volumeBaseShape builtin regexParts getattrMatchFn getattrBranches s name = .fallback none) ∧
+    (q.suf ≠ some 't' →
+      getattrVolumeBaseValue volumeBaseShape builtin regexParts getattrMatchFn getattrBranches s name
+        = .fallback (find s.compliances (keyOfVoigt (canon (pairOfDigits q.digits))))) := by
+  obtain ⟨_, h1, _, h2⟩ := calc_glue_accepted_names_reach_getattr name q h
+  have hbn : builtin name = false := by
+    cases hbn : builtin name with
+    | false => rfl
+    | true => rw [hb name hbn] at h2; cases h2
+  obtain ⟨c1, c2⟩ := calc_glue_compliance_names s hasKey name q h hs
+  unfold getattrVolumeBase getattrVolumeBaseValue
+  rw [getattrOf_undefined _ _ _ _ h1 hbn, getattrOf_undefined _ _ _ _ h1 hbn]
+  exact ⟨fun ht => ⟨by rw [(c1 ht).1], by rw [(c1 ht).2]⟩, fun ht => by rw [c2 ht]⟩
+
+/-- **`getattr(pressure_base, name)`**: `CijPressureBaseInterface.__getattr__` forwards EVERY name that reaches it to
+`getattr(self.calculator.volume_base, name)` and converts with `self.v2p` (`pressureGetattr`, extracted).  Which names reach it: an accepted
+name always does, and then reaches `CijVolumeBaseInterface.__getattr__` too — the result is `v2p` of the dispatch; a name bound on the
+volume interface but NOT on the pressure interface (now: `v_array`, `pressures`, see the example below) is `v2p` of that attribute of the volume
+interface — `pressure_base.v_array` is `v2p(volume_base.v_array)`, a 1-D array handed to the (T, V)→(T, P) conversion; every name the
+pressure interface binds itself (all nine explicit quantities among them, `calc_glue_explicit_quantities_defined`) never reaches the forwarder;
+a name neither interface defines and outside the language raises the AttributeError of the volume interface -/
+theorem calc_glue_getattr_pressure_base (builtin : String → Bool) (hb : ∀ n, builtin n = true → dunderLike n = true)
+    (hasKey : String → Modulus → Bool) :
+    pressureGetattr = ("volume_base", "v2p") ∧
+    (∀ (name : String) (q : Parsed), matchName regexParts getattrMatchFn name.toList = some q →
+      getattrPressureBase pressureBaseShape volumeBaseShape builtin regexParts getattrMatchFn getattrBranches hasKey name =
+        .fallback (.fallback (resolve regexParts getattrMatchFn getattrBranches hasKey name))) ∧
+    (∀ name : String, pressureBaseShape.always name = true ∨ builtin name = true →
+      getattrPressureBase pressureBaseShape volumeBaseShape builtin regexParts getattrMatchFn getattrBranches hasKey name =
+        .attribute name) ∧
+    (∀ name : String, pressureBaseShape.defined name = false → builtin name = false → volumeBaseShape.always name = true →
+      getattrPressureBase pressureBaseShape volumeBaseShape builtin regexParts getattrMatchFn getattrBranches hasKey name =
+        .fallback (.attribute name)) ∧
+    (∀ name : String, pressureBaseShape.defined name = false → builtin name = false → volumeBaseShape.defined name = false →
+      matchName regexParts getattrMatchFn name.toList = none →
+      getattrPressureBase pressureBaseShape volumeBaseShape builtin regexParts getattrMatchFn getattrBranches hasKey name =
+        .fallback (.fallback .attributeError)) := by
+  refine ⟨by decide, fun name q h => ?_, fun name hd => ?_, fun name h1 hbn h2 => ?_, fun name h1 hbn h2 hm => ?_⟩
+  · obtain ⟨_, _, h1, h2⟩ := calc_glue_accepted_names_reach_getattr name q h
+    have hbn : builtin name = false := by
+      cases hbn : builtin name with
+      | false => rfl
+      | true => rw [hb name hbn] at h2; cases h2
+    unfold getattrPressureBase
+    rw [getattrOf_undefined _ _ _ _ h1 hbn, calc_glue_getattr_accepted builtin hb hasKey name q h]
+  · unfold getattrPressureBase getattrOf
+    rw [if_pos (by rcases hd with hd | hd <;> simp [hd])]
+  · unfold getattrPressureBase
+    rw [getattrOf_undefined _ _ _ _ h1 hbn]
+    unfold getattrVolumeBase
+    rw [getattrOf_always _ _ _ _ h2]
+  · unfold getattrPressureBase
+    rw [getattrOf_undefined _ _ _ _ h1 hbn]
+    unfold getattrVolumeBase
+    rw [getattrOf_undefined _ _ _ _ h2 hbn]
+    unfold resolve
+    rw [hm]
+
 /-! #### `__init__`, wiring -/
 
 /-- `Calculator.__init__`: the order of the calls; every attribute exists before it is read (through sibling properties and the
@@ -580,5 +756,39 @@ example : (Cij.Memo.history (Cij.LazyGraph.defsOf (β := Int)
       (fun n vs => match n with | "bulk_modulus_reuss" => 3 | "bulk_modulus_voigt" => 5 | _ => vs.sum)) 4
       ["bulk_modulus_voigt_reuss_hill", "bulk_modulus_reuss", "bulk_modulus_voigt_reuss_hill"] []).map (·.1) = some [8, 3, 8] := by
   decide +kernel
+
+/-- the `getattr` theorems are not vacuous: a `builtin` with the required spelling (the dunders of `object`), concrete names through `getattr` -/
+example : (∀ n, (fun n => dunderLike n) n = true → dunderLike n = true) ∧
+    getattrVolumeBase volumeBaseShape dunderLike regexParts getattrMatchFn getattrBranches (fun _ _ => true) "c_2311s\n"
+      = .fallback (.served "modulus_adiabatic" (keyOfVoigt (1, 4))) ∧
+    getattrVolumeBase volumeBaseShape dunderLike regexParts getattrMatchFn getattrBranches (fun _ _ => true) "bulk_modulus_voigt"
+      = .attribute "bulk_modulus_voigt" ∧
+    getattrVolumeBase volumeBaseShape dunderLike regexParts getattrMatchFn getattrBranches (fun _ _ => true) "calculator"
+      = .attribute "calculator" ∧
+    getattrVolumeBase volumeBaseShape dunderLike regexParts getattrMatchFn getattrBranches (fun _ _ => true) "__class__"
+      = .attribute "__class__" ∧
+    getattrVolumeBase volumeBaseShape dunderLike regexParts getattrMatchFn getattrBranches (fun _ _ => true) "volumes"
+      = .fallback .attributeError ∧
+    getattrPressureBase pressureBaseShape volumeBaseShape dunderLike regexParts getattrMatchFn getattrBranches (fun _ _ => true) "s12"
+      = .fallback (.fallback (.served "_compliances" (keyOfVoigt (1, 2)))) ∧
+    getattrPressureBase pressureBaseShape volumeBaseShape dunderLike regexParts getattrMatchFn getattrBranches (fun _ _ => true) "volumes"
+      = .attribute "volumes" := by
+  refine ⟨fun _ h => h, ?_⟩
+  decide +kernel
+
+/-- names the volume interface binds and the pressure interface does not — they reach the forwarder and are handed to `v2p` -/
+example : "v_array" ∈ (volumeBaseShape.all.filter fun n => !pressureBaseShape.defined n) ∧
+    "pressures" ∈ (volumeBaseShape.all.filter fun n => !pressureBaseShape.defined n) ∧
+    getattrPressureBase pressureBaseShape volumeBaseShape dunderLike regexParts getattrMatchFn getattrBranches (fun _ _ => true) "v_array"
+      = .fallback (.attribute "v_array") ∧
+    getattrPressureBase pressureBaseShape volumeBaseShape dunderLike regexParts getattrMatchFn getattrBranches (fun _ _ => true) "nonsense"
+      = .fallback (.fallback .attributeError) := by
+  decide +kernel
+
+/-- a shape with a LazyProperty: its cache attribute is state dependent -/
+example : getattrOf (ρ := Outcome) ⟨["x"], ["calculator"], ["late"], ["_x"]⟩ (fun _ => false) (fun _ => .attributeError) "_x"
+      = .stateDependent "_x" .attributeError ∧
+    getattrOf (ρ := Outcome) ⟨["x"], ["calculator"], ["late"], ["_x"]⟩ (fun _ => false) (fun _ => .attributeError) "x" = .attribute "x" := by
+  decide
 
 end Cij.C07
